@@ -17,7 +17,7 @@ GTimeU == << <<>>, Cp("s"), Cp("m"), Cp("h"), Cp("d") >>
 GTypeL == Cp("bcdpfls")
 GPerm == << Cp("000"), Cp("644"), Cp("0755"), Cp("7777"), Cp("-0644"), Cp("/222"), Cp("u+x"), Cp("-g=rw"), Cp("/a-w"),
             Cp("ugo=rwx"), Cp("'u=r'") >>
-GFmt == << Cp("%p\\012"), Cp("'\\033[1m%f\\007'"), Cp("%p\\n"), Cp("'%p %s\\n'"), Cp("\"[%{fid}]\\t%U:%G\\n\""), Cp("x"), Cp("'%%%A@\\101'"), Cp("%h/%f\\0") >>
+GFmt == << Cp("%p\\012"), Cp("'%p\\c'"), Cp("'a\\\\cb\\\\'"), Cp("'\\033[1m%f\\007'"), Cp("%p\\n"), Cp("'%p %s\\n'"), Cp("\"[%{fid}]\\t%U:%G\\n\""), Cp("x"), Cp("'%%%A@\\101'"), Cp("%h/%f\\0") >>
 
 \* cross product helper: all concatenations a \o b
 Cross(as, bs) == Flatten([i \in 1..Len(as) |-> [j \in 1..Len(bs) |-> as[i] \o bs[j]]])
@@ -54,6 +54,7 @@ BadFromStart(lang) ==
     [] lang = "timeM" -> << Cp("d"), Cp("x1"), Cp("=5"), Cp("%"), Cp("m"), Cp(".5") >>
     [] lang = "timeD" -> << Cp("d"), Cp("x1"), Cp("=5"), Cp("%"), Cp("m"), Cp(".5") >>
     [] lang = "types" -> << Cp("x"), Cp("Z"), Cp("1"), Cp(",f"), Cp("%"), Cp("F") >>
-    [] lang = "perm"  -> << Cp("x"), Cp("9"), Cp("+x"), Cp("=r"), Cp("%"), Cp("rwx") >>
+    [] lang = "perm"  -> << Cp("x"), Cp("9"), Cp("+x"), Cp("=r"), Cp("%"), Cp("rwx"), Cp("'x y'"), Cp("\"9 u+x\"") >>
+    \* (the last two: quoted, with a blank inside -- the offending WORD is the whole quoted value)
     [] OTHER -> << >>
 =============================================================================
